@@ -1,5 +1,13 @@
-import HealSparse.Model.Core
-import HealSparse.Model.Map
-import HealSparse.Lemmas.Core
-import HealSparse.Props.C04
+-- root of the HealSparse library: executable model, lemmas, property theorems
+import HealSparse.Model.Dispatch
 import HealSparse.Props.C01
+import HealSparse.Props.C02
+import HealSparse.Props.C04
+import HealSparse.Props.C06
+import HealSparse.Props.C07
+import HealSparse.Props.C08
+import HealSparse.Props.C11
+import HealSparse.Props.C12
+import HealSparse.Props.C13
+import HealSparse.Props.C15
+import HealSparse.Props.C17
